@@ -19,6 +19,13 @@ CHECKS = {
             "Every query/query_points/in answer of the real tree on hostile interval sets (all sets of <=2 intervals over {0..3} exhaustively, thousands random) equals brute force; FileSet.match on generated fileset pairs equals the model."),
 }
 
+CHECKS["C02"] = ("exploration", "4 C02",
+    "runtime monitoring: independent template renderer/expectation model vs get_filename/parse_filename/get_info round trips, negative names, stub-handler merge",
+    "Tens of thousands of generated (template, period, attributes) round trips through the real FileSet, compared with an independent model of the template language; mismatching names must raise ValueError, placeholder errors must be the dedicated ones.")
+CHECKS["C16"] = ("exploration", "4 C16",
+    "runtime monitoring: the statement's covering/nearest rule evaluated over the harness' registry vs find_closest / fileset[t] on generated trees",
+    "Thousands of lookups (inside a file, in gaps, on boundaries, ties, empty neighbourhoods, excluded exact names, filters) on generated populations compared with the rule of the statement.")
+
 NOT_YET = {}
 
 
